@@ -50,6 +50,16 @@ def generate(seed, tier):
             return {"mode": "directed", "seed": seed, "q": q, "spec": spec, "variants": rng.randint(1, 2)}
         return {"mode": "directed", "seed": seed, "q": q, "spec": _gen.rand_directed_spec(rng),
                 "variants": rng.randint(1, 4)}
+    if rng.random() < 0.012:
+        # one hyperedge of 256-300 nodes next to small ones (sizes that only differ modulo 256, among others)
+        n = rng.randint(300, 330)
+        big = rng.choice([256, 258, 259, 260, 300])
+        nodes = list(range(n))
+        edges = [rng.sample(nodes, big)] + [rng.sample(nodes, k) for k in (big - 256 if big > 257 else 2, 2, 3, 4, 3, 2)]
+        edges = [e for i, e in enumerate(edges) if len(e) >= 1 and all(set(e) != set(f) for f in edges[:i])]
+        spec = {"nodes": nodes, "edges": edges, "labels": "int"}
+        return {"mode": "undirected", "seed": seed, "q": q, "spec": spec, "label": rng.choice(["edge", "stub"]), "detailed": True,
+                "K": rng.randint(20, 40), "prefixes": [0, 1, 5, 20], "huge": True}
     if rng.random() < 0.08:
         spec = _gen.rand_hypergraph_spec(rng, nmin=14, nmax=20, emin=8, emax=20, smin=2, smax=10, singletons=0.1)
     else:
